@@ -199,4 +199,24 @@ theorem binify_explicit_bins_spec (right : Bool) (ab mb : List α) (ha : increas
 
 end api
 
+/-! ### non-vacuity -/
+
+example : increasing ([1, 2, 3, 4] : List Rat) = true ∧ ([1, 2, 3, 4] : List Rat) ≠ [] := by decide +kernel
+example : inRange true ([1, 2, 3, 4] : List Rat) 1 = false ∧ inRange false ([1, 2, 3, 4] : List Rat) 1 = true ∧
+    inRange true ([1, 2, 3, 4] : List Rat) 4 = true ∧ inRange false ([1, 2, 3, 4] : List Rat) 4 = false ∧
+    inRange true ([1, 2, 3, 4] : List Rat) 5 = false ∧ inRange false ([1, 2, 3, 4] : List Rat) (1 / 2) = false := by
+  decide +kernel
+/-- two mean bins, three amplitude bins; the cycle ON the first amplitude edge (`right=True`) and the one above the last mean edge
+are dropped, the other two are counted once: total `3/2` of `3`. -/
+example : binifyCore true true ([1, 2, 3, 4] : List Rat) [0, 1, 2]
+      [(2, 1, (1 : Rat) / 2), (1, 1, 1), (3 / 2, 2, 1), (3, 5, 1 / 2)] = some [[1 / 2, 0, 0], [1, 0, 0]] ∧
+    (([(2, 1, (1 : Rat) / 2), (1, 1, 1), (3 / 2, 2, 1), (3, 5, 1 / 2)] : List (Rat × Rat × Rat)).filter
+      fun c => inRange true [1, 2, 3, 4] c.1 && inRange true [0, 1, 2] c.2.1).map (·.2.2) = [1 / 2, 1] := by
+  decide +kernel
+example : binifyFull true 3 true false true (.vector ([1, 2, 3, 4] : List Rat)) (.vector [0, 1, 2])
+    [(2, 1, (1 : Rat) / 2), (1, 1, 1), (3 / 2, 2, 1), (3, 5, 1 / 2)]
+    = .ok { table := [[1 / 2, 0, 0], [1, 0, 0]], index := none, columns := none, names := none,
+            bins := some ([1, 2, 3, 4], [0, 1, 2]) } := by
+  decide +kernel
+
 end PyYetiVerif.C10
